@@ -1,4 +1,6 @@
 import SJ.Proofs.Machine
+import SJ.Proofs.EarliestMain
+import SJ.Proofs.EarliestDead
 /-!
 # C11 — syntax errors point at the first offending byte
 
@@ -171,5 +173,181 @@ def envS : Env := { cfg := {}, src := .str, tgt := .value }
 example : parseTop envS [0x5b, 0x31, 0x2c, 0x5d] = .err .TrailingComma 4 := rfl
 example : parseTop envS [0x7b, 0x22, 0x61, 0x22, 0x20, 0x31, 0x7d] = .err .ExpectedColon 6 := rfl
 example : lineCol [0x5b, 0x0a, 0x31, 0x0a, 0x78] 5 = (3, 1) := rfl
+
+/-! ## the reported byte is the *first* offending one: the bytes before it are still viable
+
+`c11_dead` says that the first `idx` bytes doom the input. The theorems below say that the first
+`idx - 1` bytes do not: some continuation of them is accepted.
+
+Two qualifications, both forced by the code:
+
+* **`\u` groups.** `decode_four_hex_digits` looks at the four bytes after `\u` only once all four
+  are there, so a fault inside the group (`InvalidEscape`, or the surrogate rule
+  `LoneLeadingSurrogateInHexEscape`) is reported at the fourth byte; what is viable then is the
+  prefix that ends right after `\u` (`k = 4`).
+* **side conditions of `Value`** (`SideOK`, vacuous for skipped content). A state can be doomed by
+  a side condition without any grammar error having been reported yet: a string holding bytes that
+  can never pass the UTF-8 check of byte sources, or a number committed to a non-negative exponent
+  (`…e+`) whose mantissa alone is already out of f64 range. Such a state still raises *grammar*
+  errors (`"\xff` + control character; `1` `0`×309 `e+x`), one or more bytes after the point of no
+  return. `SideOK` excludes exactly these states; nothing else is assumed — not depth (a value
+  position is completed by a scalar), not pending surrogates (completed by `\udc00`), and
+  `RecursionLimitExceeded`, `UnexpectedEndOfHexEscape`, `InvalidUnicodeCodePoint` are covered. -/
+
+open SJ.Proofs.Earliest SJ.Proofs.Complete in
+/-- **C11 (earliest), machine-state form.** `bs = p ++ b :: rest`, the machine consumes `p` and
+    fails on `b`: then `p` is viable (or, in a `\u` group, `p` minus the three digits read). -/
+theorem c11_earliest_step (env : Env) (bs : Bytes) (c : Code) (idx : Nat)
+    (h : parseTop env bs = .err c idx) (hnf : ∀ s, finish env s ≠ .error c)
+    (hexp : ∀ s, feed env init 0 (bs.take (idx - 1)) = .ok (s, idx - 1) → ExpOK env s)
+    (hside : ∀ s, feed env init 0 (bs.take (idx - 1)) = .ok (s, idx - 1) → SideOK env s) :
+    ∃ k ys v, (k = 1 ∨ (k = 4 ∧ (c = .InvalidEscape ∨ c = .LoneLeadingSurrogateInHexEscape) ∧
+        ∃ x, bs.take (idx - 4) = x ++ [0x5c, 0x75])) ∧
+      parseTop env (bs.take (idx - k) ++ ys) = .ok v := by
+  obtain ⟨p, b, rest, s1, rfl, hf, hst, rfl⟩ := parse_err_step env bs c idx h hnf
+  have hp : (p ++ b :: rest).take (p.length + 1 - 1) = p := by simp
+  have hfeed : feed env init 0 ((p ++ b :: rest).take (p.length + 1 - 1)) = .ok (s1, p.length + 1 - 1) := by
+    rw [hp, hf.to_feed 0]; simp
+  rcases earliest_core env p b s1 c .incl hf hst (hexp s1 hfeed) (hside s1 hfeed) with
+    ⟨ys, v, hv⟩ | ⟨hcode, hlen, ⟨x, hx⟩, ys, v, hv⟩
+  · exact ⟨1, ys, v, Or.inl rfl, by rw [hp]; exact hv⟩
+  · have : (p ++ b :: rest).take (p.length + 1 - 4) = p.take (p.length - 3) := by
+      have : p.length + 1 - 4 = p.length - 3 := by omega
+      rw [this, List.take_append_of_le_length (by omega)]
+    exact ⟨4, ys, v, Or.inr ⟨rfl, hcode, x, by rw [this]; exact hx⟩, by rw [this]; exact hv⟩
+
+open SJ.Proofs.Earliest in
+/-- **C11 (earliest).** If parsing fails with an error that is not Eof-classified and not the
+    number-range rejection, reported at byte count `idx`, and the state before the offending byte
+    is not already doomed by a side condition (`SideOK`), then the first `idx - 1` bytes can be
+    continued to an accepted input — so together with `c11_dead`, byte `idx` is the first byte
+    after which no continuation could be valid. Inside a `\u` group the fault is reported at the
+    group's fourth byte (`k = 4`: the prefix ending right after `\u` is viable). -/
+theorem c11_earliest (env : Env) (bs : Bytes) (c : Code) (idx : Nat)
+    (h : parseTop env bs = .err c idx) (hc : classify c ≠ .eof) (hn : c ≠ .NumberOutOfRange)
+    (hside : ∀ s, feed env init 0 (bs.take (idx - 1)) = .ok (s, idx - 1) → SideOK env s) :
+    ∃ k ys v, (k = 1 ∨ (k = 4 ∧ (c = .InvalidEscape ∨ c = .LoneLeadingSurrogateInHexEscape) ∧
+        ∃ x, bs.take (idx - 4) = x ++ [0x5c, 0x75])) ∧
+      parseTop env (bs.take (idx - k) ++ ys) = .ok v := by
+  have hnf : ∀ s, finish env s ≠ .error c := by
+    intro s hfin
+    cases ht : env.tgt with
+    | value =>
+      rcases finish_eof_clean_value env ht s c hfin with h1 | h1
+      · exact hc h1
+      · exact hn h1
+    | ignored => exact hc (finish_eof_clean_ignored env ht s c hfin)
+  obtain ⟨p, b, rest, s1, rfl, hf, hst, rfl⟩ := parse_err_step env bs c idx h hnf
+  refine c11_earliest_step env _ c _ h hnf (fun s hs => ?_) hside
+  have hp : (p ++ b :: rest).take (p.length + 1 - 1) = p := by simp
+  rw [hp, hf.to_feed 0] at hs
+  simp only [Except.ok.injEq, Prod.mk.injEq] at hs
+  rw [← hs.1]
+  exact expOK_of_step_err env s1 b c .incl hst hn
+
+open SJ.Proofs.Earliest in
+/-- **C11 (earliest), skipped content** (`IgnoredAny`, unknown fields, the `RawValue` scanner): no
+    side condition at all — the bytes before the reported one always have an accepted continuation. -/
+theorem c11_earliest_ignored (env : Env) (henv : env.tgt = .ignored) (bs : Bytes) (c : Code) (idx : Nat)
+    (h : parseTop env bs = .err c idx) (hc : classify c ≠ .eof) :
+    ∃ k ys v, (k = 1 ∨ (k = 4 ∧ c = .InvalidEscape ∧ ∃ x, bs.take (idx - 4) = x ++ [0x5c, 0x75])) ∧
+      parseTop env (bs.take (idx - k) ++ ys) = .ok v := by
+  have hnf : ∀ s, finish env s ≠ .error c :=
+    fun s hfin => hc (finish_eof_clean_ignored env henv s c hfin)
+  obtain ⟨k, ys, v, hk, hv⟩ := c11_earliest_step env bs c idx h hnf
+    (fun s _ => expOK_ignored env henv s) (fun s _ => sideOK_ignored env henv s)
+  refine ⟨k, ys, v, ?_, hv⟩
+  rcases hk with rfl | ⟨rfl, hcode | hcode, hx⟩
+  · exact Or.inl rfl
+  · exact Or.inr ⟨rfl, hcode, hx⟩
+  · -- the surrogate rule is not applied to skipped content
+    exfalso
+    obtain ⟨p, b, rest, s1, rfl, hf, hst, rfl⟩ := parse_err_step env bs c idx h hnf
+    subst hcode
+    exact lone_not_ignored env henv s1 b _ hst
+
+/-- **C11 (earliest), `Value` from a `&str` under `arbitrary_precision`**: both side conditions are
+    vacuous (no UTF-8 check on `&str` input, no number conversion). -/
+theorem c11_earliest_str_ap (env : Env) (hsrc : env.src = .str) (hap : env.cfg.ap = true)
+    (bs : Bytes) (c : Code) (idx : Nat)
+    (h : parseTop env bs = .err c idx) (hc : classify c ≠ .eof) (hn : c ≠ .NumberOutOfRange) :
+    ∃ k ys v, (k = 1 ∨ (k = 4 ∧ (c = .InvalidEscape ∨ c = .LoneLeadingSurrogateInHexEscape) ∧
+        ∃ x, bs.take (idx - 4) = x ++ [0x5c, 0x75])) ∧
+      parseTop env (bs.take (idx - k) ++ ys) = .ok v := by
+  refine c11_earliest env bs c idx h hc hn (fun s _ => ?_)
+  unfold SJ.Proofs.Earliest.SideOK
+  split
+  · intro _ h2; rw [hap] at h2; cases h2
+  · intro _ h2; exact absurd hsrc h2
+  · trivial
+
+/-- the statement in the form of the property text: a grammar error (none of the side-condition
+    codes, and not the `\u`-group code) leaves the bytes before the offending one viable -/
+theorem c11_earliest_grammar (env : Env) (bs : Bytes) (c : Code) (idx : Nat)
+    (h : parseTop env bs = .err c idx) (hc : classify c ≠ .eof) (hn : c ≠ .NumberOutOfRange)
+    (h1 : c ≠ .InvalidEscape) (h2 : c ≠ .LoneLeadingSurrogateInHexEscape)
+    (hside : ∀ s, feed env init 0 (bs.take (idx - 1)) = .ok (s, idx - 1) → SJ.Proofs.Earliest.SideOK env s) :
+    ∃ ys v, parseTop env (bs.take (idx - 1) ++ ys) = .ok v := by
+  obtain ⟨k, ys, v, hk, hv⟩ := c11_earliest env bs c idx h hc hn hside
+  rcases hk with rfl | ⟨_, hcode | hcode, _⟩
+  · exact ⟨ys, v, hv⟩
+  · exact absurd hcode h1
+  · exact absurd hcode h2
+
+/-! non-vacuity -/
+
+/-- `[1,]`: the error is reported at byte 4 (`]`); the first three bytes continue to `[1,null]` -/
+example : ∃ k ys v, (k = 1 ∨ (k = 4 ∧ (Code.TrailingComma = .InvalidEscape ∨
+      Code.TrailingComma = .LoneLeadingSurrogateInHexEscape) ∧
+      ∃ x, ([0x5b, 0x31, 0x2c, 0x5d] : Bytes).take (4 - 4) = x ++ [0x5c, 0x75])) ∧
+    parseTop envS (([0x5b, 0x31, 0x2c, 0x5d] : Bytes).take (4 - k) ++ ys) = .ok v :=
+  c11_earliest envS [0x5b, 0x31, 0x2c, 0x5d] .TrailingComma 4 rfl (by decide) (by decide)
+    (fun s hs => by cases hs; trivial)
+example : parseTop envS ([0x5b, 0x31, 0x2c] ++ [0x6e, 0x75, 0x6c, 0x6c, 0x5d]) = .ok (.arr [.num (.pos 1), .null]) := rfl
+
+/-- `"\u12G4"`: the bad digit `G` (byte 6) is reported at the group's fourth byte (7); the prefix
+    `"\u` (= 7 − 4 bytes) continues to `"\u0000"` -/
+example : parseTop envS [0x22, 0x5c, 0x75, 0x31, 0x32, 0x47, 0x34, 0x22] = .err .InvalidEscape 7 := rfl
+example : ∃ k ys v, (k = 1 ∨ (k = 4 ∧ (Code.InvalidEscape = .InvalidEscape ∨
+      Code.InvalidEscape = .LoneLeadingSurrogateInHexEscape) ∧
+      ∃ x, ([0x22, 0x5c, 0x75, 0x31, 0x32, 0x47, 0x34, 0x22] : Bytes).take (7 - 4) = x ++ [0x5c, 0x75])) ∧
+    parseTop envS (([0x22, 0x5c, 0x75, 0x31, 0x32, 0x47, 0x34, 0x22] : Bytes).take (7 - k) ++ ys) = .ok v :=
+  c11_earliest envS _ .InvalidEscape 7 rfl (by decide) (by decide)
+    (fun s hs => by cases hs; intro _ h; exact absurd rfl h)
+example : parseTop envS ([0x22, 0x5c, 0x75] ++ [0x30, 0x30, 0x30, 0x30, 0x22]) = .ok (.str [0]) := rfl
+
+/-- skipped content, `{"a":1,}`: reported at byte 8 (`}`), `{"a":1,` continues with `"":null}` -/
+def envI : Env := { cfg := {}, src := .slice, tgt := .ignored }
+example : parseTop envI [0x7b, 0x22, 0x61, 0x22, 0x3a, 0x31, 0x2c, 0x7d] = .err .KeyMustBeAString 8 := rfl
+example : ∃ k ys v, (k = 1 ∨ (k = 4 ∧ Code.KeyMustBeAString = .InvalidEscape ∧
+      ∃ x, ([0x7b, 0x22, 0x61, 0x22, 0x3a, 0x31, 0x2c, 0x7d] : Bytes).take (8 - 4) = x ++ [0x5c, 0x75])) ∧
+    parseTop envI (([0x7b, 0x22, 0x61, 0x22, 0x3a, 0x31, 0x2c, 0x7d] : Bytes).take (8 - k) ++ ys) = .ok v :=
+  c11_earliest_ignored envI rfl _ .KeyMustBeAString 8 rfl (by decide)
+example : parseTop envI ([0x7b, 0x22, 0x61, 0x22, 0x3a, 0x31, 0x2c] ++
+    [0x22, 0x22, 0x3a, 0x6e, 0x75, 0x6c, 0x6c, 0x7d]) = .ok .null := rfl
+
+/-! `SideOK` cannot be dropped — two inputs whose grammar error comes *after* the point of no return
+(reachable, no error yet, no accepted completion):
+
+* `Value` from a slice, `"\xff` + U+0001: `ControlCharacterWhileParsingString` at byte 3, although
+  no string starting with `"\xff` can pass the UTF-8 check (`"\xff"` is `InvalidUnicodeCodePoint`);
+* `1`, 309 zeros, `e+x`: `InvalidNumber` at byte 313, although after `e+` only digits can follow and
+  already `…e+0` is `NumberOutOfRange` (`…e-9` is fine: byte 312, the `+`, is the point of no return). -/
+def envSl : Env := { cfg := {}, src := .slice, tgt := .value }
+example : parseTop envSl [0x22, 0xff, 0x01] = .err .ControlCharacterWhileParsingString 3 := rfl
+example : parseTop envSl [0x22, 0xff, 0x22] = .err .InvalidUnicodeCodePoint 3 := rfl
+
+/-- the first of them, proved: the error of `"\xff` U+0001 is reported at byte 3, yet already the
+    first two bytes have no accepted continuation (so the conclusion of `c11_earliest` fails, and the
+    hypothesis `SideOK` with it: the state after `"\xff` is not `Utf8Viable`) -/
+theorem c11_sideOK_needed :
+    parseTop envSl [0x22, 0xff, 0x01] = .err .ControlCharacterWhileParsingString 3 ∧
+    ∀ ys v, parseTop envSl (([0x22, 0xff, 0x01] : Bytes).take (3 - 1) ++ ys) ≠ .ok v :=
+  ⟨rfl, SJ.Proofs.Earliest.dead_prefix envSl rfl (by decide) [0x22, 0xff]
+    ⟨[0xff], .none, false, false⟩ [] rfl SJ.Proofs.Earliest.utf8Dead_ff⟩
+example : (parseTop envS (0x31 :: List.replicate 309 0x30 ++ [0x65, 0x2b, 0x78])).isErr .InvalidNumber 313 = true := by
+  decide +kernel
+example : (parseTop envS (0x31 :: List.replicate 309 0x30 ++ [0x65, 0x2b, 0x30])).isErr .NumberOutOfRange 313 = true := by
+  decide +kernel
 
 end SJ.Props.C11
